@@ -111,7 +111,69 @@ func (p c04Ptr) Plain() string { return "val-" + p.Name }
 // c04Absolute: histories whose every result is known by construction, so that state kept anywhere in
 // the process (not only in the compiled template) shows: a fresh compile in the same process would
 // share such state and agree with the wrong answer
+// c04Relative: histories whose every execution is compared with the first execution of a freshly
+// built set — deep self-inclusion (what an earlier, deeper execution used or gave up must not count
+// against a later one) and sets with Globals holding nested contexts (what one execution's context
+// says about a global must not stick to the global)
+func c04Relative(res *Result) {
+	type hist struct {
+		name    string
+		files   map[string]string
+		entry   string
+		globals func() pongo2.Context
+		steps   []pongo2.Context
+	}
+	rec := map[string]string{"rec.tpl": `{% if n > 0 %}{{ n }};{% include self with n=n-1 %}{% endif %}`}
+	site := func() pongo2.Context {
+		return pongo2.Context{"site": pongo2.Context{"name": "Shop", "nav": pongo2.Context{"home": "/"}}, "g": "G", "list": []string{"b", "a"}}
+	}
+	hs := []hist{
+		{"deep self-inclusion, deeper first", rec, "rec.tpl", nil, []pongo2.Context{{"self": "rec.tpl", "n": 1300}, {"self": "rec.tpl", "n": 1000}, {"self": "rec.tpl", "n": 999}, {"self": "rec.tpl", "n": 1300}, {"self": "rec.tpl", "n": 1000}, {"self": "rec.tpl", "n": 3}}},
+		{"a nested context in Globals, refined by one execution's context", map[string]string{"g.tpl": `{{ site.name }}|{{ site.title }}|{{ site.nav.home }}|{{ site.nav.about }}|{{ g }}|{% for x in list sorted %}{{ x }}{% endfor %}{{ list.0 }}`}, "g.tpl", site,
+			[]pongo2.Context{{}, {"site": pongo2.Context{"title": "Sale"}}, {}, {"site": pongo2.Context{"nav": pongo2.Context{"about": "/a"}}, "g": "x"}, {}, nil, {"list": []string{"z"}}, {}}},
+	}
+	for _, h := range hs {
+		mk := func() (*pongo2.TemplateSet, *pongo2.Template, error) {
+			set := pongo2.NewSet("rel", &memLoader{files: h.files, id: "0"})
+			if h.globals != nil {
+				set.Globals = h.globals()
+			}
+			tpl, err := set.FromFile(h.entry)
+			return set, tpl, err
+		}
+		set, tpl, err := mk()
+		res.Cases++
+		res.DistinctNontrivial++
+		if err != nil {
+			res.add(Finding{Kind: "oracle", Proj: "history", Sig: "c04-relative-history", Case: h.name, Impl: "compile: " + err.Error(), Model: "compiles"})
+			continue
+		}
+		gBefore := dumpCtx(set.Globals)
+		for j, ctx := range h.steps {
+			got := execOnce(tpl, ctx)
+			_, fresh, _ := mk()
+			want := execOnce(fresh, ctx)
+			if got.String() != want.String() {
+				g, w := got.String(), want.String()
+				if len(g) > 160 {
+					g = g[:80] + "…" + g[len(g)-60:]
+				}
+				if len(w) > 160 {
+					w = w[:80] + "…" + w[len(w)-60:]
+				}
+				res.add(Finding{Kind: "oracle", Proj: "history", Sig: "c04-relative-history", Case: fmt.Sprintf("%s: files=%q, execution #%d with %v", h.name, h.files, j+1, ctx), Impl: g, Model: "a freshly built set gives " + w})
+				break
+			}
+			if gAfter := dumpCtx(set.Globals); gAfter != gBefore {
+				res.add(Finding{Kind: "oracle", Proj: "history", Sig: "c04-globals-written", Case: fmt.Sprintf("%s: execution #%d with %v", h.name, j+1, ctx), Impl: gAfter, Model: "Globals as before: " + gBefore})
+				break
+			}
+		}
+	}
+}
+
 func c04Absolute(cfg Config, res *Result, rng *RNG) {
+	defer c04Relative(res)
 	type step struct {
 		ctx  pongo2.Context
 		want string
